@@ -681,10 +681,28 @@ fn step_match(c: &StepCtx, cfg: &Cfg, body: &Value, sender: &str, funds: &[(Stri
     if a.class == AskClass::Pending {
         viol(out, "C08", "pending-match", "a pending convertible ask was matched", format!("{}", body));
     }
-    let (_, ctx) = match_verdict(cfg, &c.pre_book, sender, funds, body);
+    let (mv, ctx) = match_verdict(cfg, &c.pre_book, sender, funds, body);
     let ctx = match ctx {
         Some(x) => x,
-        None => return, // ineligible and accepted: already reported by C03; amounts cannot be judged
+        None => {
+            // ineligible and accepted: reported by C03. When the reason is that p*s or (bid price)*s is
+            // not a whole number, no integer transfer can equal what C02 says each party is due either.
+            if mv.reason.contains("not an integer") {
+                viol(out, "C02", "settlement", "match settled although the amounts due are not whole numbers", format!("{} ; request {} ask {} bid {}", mv.reason, body, a.raw, b.raw));
+            }
+            // keep the per-order ledger (C01) in step
+            if denoms_disjoint(cfg) {
+                let mut rest = cdelta.clone();
+                let ea = h.escrow.entry(('a', ask_id.clone())).or_default();
+                ea.main += rest.remove(&a.base).unwrap_or(0);
+                if let AskClass::Ready { cb_denom, .. } = &a.class {
+                    ea.approver += rest.remove(cb_denom).unwrap_or(0);
+                }
+                let eb = h.escrow.entry(('b', bid_id.clone())).or_default();
+                eb.main += rest.remove(&b.quote_denom).unwrap_or(0);
+            }
+            return;
+        }
     };
     if !ctx.amounts_exact {
         // stated bound of the claim (DESIGN section 4): beyond 2^95 rust_decimal rescales products
@@ -1080,6 +1098,41 @@ fn check_c17(c: &StepCtx, cfg: &Cfg, kind: &str, body: &Value, attrs: &[(String,
                 };
                 if !okp {
                     viol(out, "C17", "attributes", "reported execution price differs numerically from the price executed", format!("price attr {:?} request {}", get("price"), body["price"]));
+                }
+                // fees: against what the ledger says the fee accounts received (when they can be told apart)
+                {
+                    let delta = ledger_delta(c.pre, c.post);
+                    let seller = match &a.class {
+                        AskClass::Ready { approver, .. } => approver.clone(),
+                        _ => a.owner.clone(),
+                    };
+                    let afa = cfg.ask_fee.as_ref().map(|f| f.account.clone());
+                    let bfa = cfg.bid_fee.as_ref().map(|f| f.account.clone());
+                    let got = |acct: &str| *delta.get(&(acct.to_string(), b.quote_denom.clone())).unwrap_or(&0);
+                    match &afa {
+                        None => {
+                            if num("ask_fee") != Some(0) {
+                                viol(out, "C17", "attributes", "reported ask_fee is not zero although no ask-fee account exists to be paid", format!("ask_fee attr {:?}", get("ask_fee")));
+                            }
+                        }
+                        Some(x) => {
+                            if x != &b.owner && x != &seller && Some(x) != bfa.as_ref() && x != CONTRACT && num("ask_fee").map(|v| v as i128) != Some(got(x)) {
+                                viol(out, "C17", "attributes", "reported ask_fee differs from the fee paid to the ask-fee account", format!("ask_fee attr {:?} account {} received {}", get("ask_fee"), x, got(x)));
+                            }
+                        }
+                    }
+                    match &bfa {
+                        None => {
+                            if num("bid_fee") != Some(0) {
+                                viol(out, "C17", "attributes", "reported bid_fee is not zero although no bid-fee account exists to be paid", format!("bid_fee attr {:?}", get("bid_fee")));
+                            }
+                        }
+                        Some(x) => {
+                            if x != &b.owner && x != &seller && Some(x) != afa.as_ref() && x != CONTRACT && num("bid_fee").map(|v| v as i128) != Some(got(x)) {
+                                viol(out, "C17", "attributes", "reported bid_fee differs from the fee paid to the bid-fee account", format!("bid_fee attr {:?} account {} received {}", get("bid_fee"), x, got(x)));
+                            }
+                        }
+                    }
                 }
                 // fees: against the settlement alternatives that reproduce the observed ledger
                 // executor/funds are irrelevant here: rebuild the context with a permissive sender
